@@ -486,6 +486,9 @@ kll_sketch<T, C, A> kll_sketch<T, C, A>::deserialize(std::istream& is, const Ser
     read(is, levels.data(), sizeof(levels[0]) * num_levels);
   }
   levels[num_levels] = capacity;
+  for (uint8_t i = 0; i < num_levels; ++i) {
+    if (levels[i] > levels[i + 1]) throw std::invalid_argument("Possible corruption: levels must be non-decreasing and within capacity");
+  }
   optional<T> tmp; // space to deserialize min and max
   optional<T> min_item;
   optional<T> max_item;
@@ -575,6 +578,9 @@ kll_sketch<T, C, A> kll_sketch<T, C, A>::deserialize(const void* bytes, size_t s
     ptr += copy_from_mem(ptr, levels.data(), sizeof(levels[0]) * num_levels);
   }
   levels[num_levels] = capacity;
+  for (uint8_t i = 0; i < num_levels; ++i) {
+    if (levels[i] > levels[i + 1]) throw std::invalid_argument("Possible corruption: levels must be non-decreasing and within capacity");
+  }
   optional<T> tmp; // space to deserialize min and max
   optional<T> min_item;
   optional<T> max_item;
